@@ -326,6 +326,8 @@ func c12(w *core.World, r *core.Report) {
 		}
 	}
 
+	ruleEqualLeaflist(w, r)
+
 	// ---- CASE-GETTER
 	r.Rule("CASE-GETTER", 40, "inside 'case *T_XVal' every getter called on the switched TypedValue is GetXVal (a getter of another kind returns the zero value). Checked for every getter call in pkg/utils, pkg/tree and the netconf package that is guarded by a type assertion of the same value's oneof field.")
 	for _, f := range w.RepoFns {
@@ -574,4 +576,58 @@ func bounded(cv *ssa.Convert) bool {
 		}
 	}
 	return true
+}
+
+// ruleEqualLeaflist (C12, C15): leaf-list equality compares the lengths of both element lists and every pair of elements.
+func ruleEqualLeaflist(w *core.World, r *core.Report) {
+	r.Rule("EQUAL-LEAFLIST", 2, "utils.EqualTypedValues on two leaf-lists depends on the length of BOTH element lists (a length mismatch is inequality; a prefix is not equal) and compares the elements pairwise by calling itself.")
+	f := w.Func("pkg/utils", "", "EqualTypedValues")
+	if f == nil {
+		return
+	}
+	sl := core.ReturnSlice(f, -1)
+	nLen := 0
+	for v := range sl.Values {
+		c, ok := v.(*ssa.Call)
+		if !ok {
+			continue
+		}
+		if bi, isB := c.Common().Value.(*ssa.Builtin); isB && bi.Name() == "len" {
+			for _, oc := range core.OriginCalls(c.Common().Args[0]) {
+				if strings.HasSuffix(core.CalleeKey(oc), "ScalarArray.GetElement") {
+					nLen++
+				}
+			}
+			if strings.HasSuffix(core.FieldOf(c.Common().Args[0]), "ScalarArray.Element") {
+				nLen++
+			}
+		}
+	}
+	// the two lengths must be compared with each other (one != test), not merely used as loop bounds
+	cmp := false
+	for _, iff := range core.Ifs(f) {
+		a, b, _, isEq := core.EqTest(iff.Cond)
+		if !isEq {
+			continue
+		}
+		isLen := func(v ssa.Value) bool {
+			c, ok := v.(*ssa.Call)
+			if !ok {
+				return false
+			}
+			bi, isB := c.Common().Value.(*ssa.Builtin)
+			return isB && bi.Name() == "len"
+		}
+		if isLen(a) && isLen(b) {
+			cmp = true
+		}
+	}
+	r.Check(nLen >= 2 && cmp, "EQUAL-LEAFLIST", core.Site(f, "lengths compared"), w.Pos(f.Pos()), "leaf-lists of different length must be unequal")
+	rec := false
+	for _, c := range core.Calls(f) {
+		if c.Common().StaticCallee() == f && core.OnCycle(c) {
+			rec = true
+		}
+	}
+	r.Check(rec, "EQUAL-LEAFLIST", core.Site(f, "elements compared pairwise"), w.Pos(f.Pos()), "element-wise comparison by recursion")
 }
